@@ -90,6 +90,32 @@ func (r *verifReader) Read(p []byte) (int, error) {
 	return n, nil
 }
 
+// verifWriterTo is a source that io.Copy drains through WriteTo: it hands the scripted chunks to the destination's Write
+// one by one and can kill the process right after the k-th Write call returned, i.e. at a write boundary *including
+// after the final write and before any clean-up of the caller* (crash injection child only).
+type verifWriterTo struct {
+	chunks    [][]byte
+	killAfter int
+}
+
+func (r *verifWriterTo) Read(p []byte) (int, error) { return 0, io.EOF }
+
+func (r *verifWriterTo) WriteTo(w io.Writer) (int64, error) {
+	var total int64
+	for i, c := range r.chunks {
+		n, err := w.Write(c)
+		total += int64(n)
+		if i+1 == r.killAfter {
+			syscall.Kill(os.Getpid(), syscall.SIGKILL)
+			time.Sleep(10 * time.Second)
+		}
+		if err != nil {
+			return total, err
+		}
+	}
+	return total, nil
+}
+
 func verifDigest(v any) Digest {
 	s, _ := v.(string)
 	d, err := ParseDigest("sha256:" + s)
@@ -185,6 +211,27 @@ func verifSnapshot(c *DiskCache, dir string, digests []Digest) map[string]any {
 	return map[string]any{"blobs": blobs, "links": links, "gets": gets, "names": names, "stray": stray}
 }
 
+// verifProbe resolves every name of the case without side effects (manifestPath + readAndSum, i.e. Resolve without the
+// PutBytes): the digest a Resolve would return now, or "" if it would fail.
+func verifProbe(c *DiskCache, names []any) map[string]string {
+	out := map[string]string{}
+	for _, x := range names {
+		n, _ := x.(string)
+		file, err := c.manifestPath(n)
+		if err != nil {
+			out[n] = ""
+			continue
+		}
+		_, d, err := readAndSum(file, 1<<20)
+		if err != nil {
+			out[n] = ""
+			continue
+		}
+		out[n] = fmt.Sprintf("%x", d.sum[:])
+	}
+	return out
+}
+
 func verifDigests(c map[string]any) []Digest {
 	l, _ := c["digests"].([]any)
 	var out []Digest
@@ -211,6 +258,9 @@ func verifOp(c *DiskCache, dir string, op map[string]any) map[string]any {
 		d := verifDigest(op["d"])
 		size := int64(op["size"].(float64))
 		rds := verifReads(op["src"])
+		if _, ok := op["wcrash"].(float64); ok {
+			return verifChildPut(dir, op)
+		}
 		if k, ok := op["crash"].(float64); ok {
 			if int(k) == 0 {
 				return map[string]any{"kind": "crashed"}
@@ -312,7 +362,11 @@ func verifHist(c map[string]any) any {
 	for _, o := range ops {
 		op, _ := o.(map[string]any)
 		res := verifOp(cache, dir, op)
-		steps = append(steps, map[string]any{"res": res, "snap": verifSnapshot(cache, dir, digests)})
+		snap := verifSnapshot(cache, dir, digests)
+		if pn, ok := c["probe"].([]any); ok {
+			snap["probe"] = verifProbe(cache, pn)
+		}
+		steps = append(steps, map[string]any{"res": res, "snap": snap})
 	}
 	return map[string]any{"steps": steps}
 }
@@ -331,6 +385,17 @@ func VerifC08Child() {
 	cache, err := Open(in.Dir)
 	if err != nil {
 		fmt.Println(`{"kind":"harness_error","msg":"child open"}`)
+		os.Exit(0)
+	}
+	if wk, ok := in.Op["wcrash"].(float64); ok {
+		wt := &verifWriterTo{killAfter: int(wk)}
+		for _, x := range verifReads(in.Op["src"]) {
+			if len(x.data) > 0 {
+				wt.chunks = append(wt.chunks, x.data)
+			}
+		}
+		res := verifRes(cache.Put(verifDigest(in.Op["d"]), wt, int64(in.Op["size"].(float64))))
+		json.NewEncoder(os.Stdout).Encode(res)
 		os.Exit(0)
 	}
 	k := int(in.Op["crash"].(float64))
